@@ -3,7 +3,7 @@
    length), C08 (seek) and C09 (loops, hooks), on executions recorded by harness/drive_seq.
    The oracle is SmfRef (reference semantics of SMF) plus the controller semantics of Synth for
    the seek clause.  Per execution: Init, Song, configuration calls, Load, then Play/Seek records. *)
-EXTENDS SmfRef, Json, IOUtils, Sequences
+EXTENDS SmfRef, Synth, Json, IOUtils, Sequences
 
 T == ndJsonDeserialize(IOEnv.TRACE)
 MaxFails == 12
@@ -140,6 +140,71 @@ WindowFails(ev, sg, c) ==
   IN Lbl(\A i \in DOMAIN calls : ok(i), "late-or-early")
 
 ---------------------------------------------------------------------------
+\* ---- C08: seek -------------------------------------------------------------------------
+SeekSlackUs == 12            \* half of the 1/44100 s granularity opn2_positionSeek uses
+\* controller state reached by playing the reference prefix linearly (Synth controller semantics on 16 channels)
+RECURSIVE FoldCtl(_, _, _)
+FoldCtl(S, its, i) ==
+  IF i > Len(its) THEN S
+  ELSE LET it == its[i]
+           S1 == CASE it.k = "begin" -> ResetState(S)
+                   [] it.k = "cc"    -> Controller(S, it.ch, it.d[1], it.d[2])
+                   [] it.k = "pc"    -> [S EXCEPT !.mc[it.ch + 1].patch = it.d[1]]
+                   [] it.k = "bend"  -> [S EXCEPT !.mc[it.ch + 1].bend = it.d[1] + it.d[2] * 128 - 8192]
+                   [] it.k = "cat"   -> [S EXCEPT !.mc[it.ch + 1].at = it.d[1]]
+                   [] OTHER -> S
+       IN FoldCtl(S1, its, i + 1)
+CtlView(m) == <<m.patch, m.msb, m.lsb, m.vol, m.expr, m.pan, m.bend, m.bsm, m.bsl, m.sus, m.soft, m.lrpn, m.mrpn, m.nrpn,
+                m.vib, m.at, m.bright, m.porta, m.portaEn>>
+SeekFails(ev, sg, c) ==
+  LET its == Gated(sg, sg.its, c.enabled, c.solo)
+      tgt == ev.us
+      lastT == sg.len - 1000000
+      inside == tgt >= 0 /\ tgt < lastT - SeekSlackUs   \* strictly before the final event: afterwards the song is over (see tail)
+      tail == tgt >= lastT - SeekSlackUs /\ tgt <= sg.len  \* at/after the last event the sequencer is at its end and may rewind
+      beyond == tgt > sg.len
+      \* items surely before / surely after the target (those within the slack may fall on either side)
+      pre  == SelectSeq(its, LAMBDA it : it.t <= tgt - SeekSlackUs)
+      amb  == SelectSeq(its, LAMBDA it : it.t > tgt - SeekSlackUs /\ it.t <= tgt + SeekSlackUs)
+      D    == SelectSeq(ev.log, LAMBDA x : x[1] = "e")
+      Dk   == [i \in DOMAIN D |-> [KeyOfEntry(D[i]) EXCEPT ![1] = 0]]
+      key0(it) == [KeyOfItem(it) EXCEPT ![1] = 0]
+      need == SelectSeq(pre, LAMBDA it : it.cls # "on")
+      may  == SelectSeq(pre \o amb, LAMBDA it : it.cls # "on")
+      S0   == Init0([i \in 1..16 |-> i - 1], 12, 0, <<>>, 44100, FALSE, -1, 0)
+      exp  == FoldCtl(S0, pre \o amb, 1)
+      expLo == FoldCtl(S0, pre, 1)
+      snap == ev.s
+      ctlOK == \A ch \in 1..16 : CtlView(snap.mc[ch]) = CtlView(exp.mc[ch]) \/ CtlView(snap.mc[ch]) = CtlView(expLo.mc[ch])
+      silent == (\A ci \in DOMAIN snap.ch : ~snap.ch[ci].k /\ snap.ch[ci].u = <<>>) /\ \A mi \in DOMAIN snap.mc : snap.mc[mi].notes = <<>>
+  IN IF inside
+     THEN Lbl(Abs(ev.tell - tgt) <= 1, "tell") \cup
+          Lbl(\A i \in DOMAIN need : Count(Dk, LAMBDA y : y = key0(need[i])) >= Count(need, LAMBDA it : key0(it) = key0(need[i])), "prefix-missing") \cup
+          Lbl(\A i \in DOMAIN Dk : Count(Dk, LAMBDA y : y = Dk[i]) <= Count(may, LAMBDA it : key0(it) = Dk[i]), "prefix-extra") \cup
+          Lbl(\A i \in DOMAIN D : D[i][3] # 9, "noteon-during-seek") \cup
+          Lbl(tgt <= SeekSlackUs \/ ctlOK, "controller-state") \cup
+          Lbl(silent, "sounding-after-seek")
+     ELSE IF tail THEN Lbl(ev.tell = 0 \/ Abs(ev.tell - tgt) <= 1, "tell") \cup Lbl(silent, "sounding-after-seek")
+     ELSE IF beyond THEN Lbl(ev.tell = 0, "beyond-end-not-rewound") \cup Lbl(silent, "sounding-after-seek")
+     ELSE Lbl(ev.tell = pos.t, "negative-seek-moved")
+StepSeek(ev) ==
+  LET f == SeekFails(ev, song, cfg)
+      tgt == ev.tell
+  IN /\ fails' = AddFails(Tag("C08", f, ev, ToString(<<"target", ev.us, "len", song.len, "tell", ev.tell, "was", pos.t>>)))
+     /\ pos' = [t |-> tgt, moved |-> TRUE]
+     /\ UNCHANGED <<song, cfg, exec>>
+     /\ cnt' = [cnt EXCEPT !.steps = @ + 1, !.seeks = @ + 1]
+\* playback after a seek: exactly the reference items after the target, at their song times
+PlayAfterSeekFails(ev, sg, c, from) ==
+  LET its == Gated(sg, sg.its, c.enabled, c.solo)
+      D   == EntriesOf(ev.calls, "e")
+      Dk  == [i \in DOMAIN D |-> KeyOfEntry(D[i])]
+      post == SelectSeq(its, LAMBDA it : it.t > from + SeekSlackUs)
+      amb  == SelectSeq(its, LAMBDA it : it.t > from - SeekSlackUs /\ it.t <= from + SeekSlackUs)
+  IN Lbl(\A i \in DOMAIN post : Count(Dk, LAMBDA y : y = KeyOfItem(post[i])) >= Count(post, LAMBDA it : KeyOfItem(it) = KeyOfItem(post[i])), "suffix-missing") \cup
+     Lbl(\A i \in DOMAIN Dk : Count(Dk, LAMBDA y : y = Dk[i]) <= Count(post \o amb, LAMBDA it : KeyOfItem(it) = Dk[i]), "suffix-extra-or-mistimed") \cup
+     Lbl(ev.atend = 1, "not-at-end")
+
 StepInit(ev) == /\ song' = [none |-> TRUE] /\ cfg' = Cfg0 /\ pos' = Pos0 /\ exec' = exec + 1 /\ fails' = fails
                 /\ cnt' = [cnt EXCEPT !.execs = @ + 1]
 \* everything derived from the song is computed once here (TLC does not memoise operator applications)
@@ -183,8 +248,10 @@ StepPlayTicks(ev) ==
                        "infinite-ended", "infinite-nojump"} \/ (cfg.loopEn /\ x = "delivery-count")
       D == EntriesOf(ev.calls, "e")
       det == ToString(<<"loop", li, "n", cfg.loopN, "hooks", EntriesOf(ev.calls, "h"), "nLS", Count(EntriesOf(ev.calls, "h"), LAMBDA x : x[3] = 1), "times", [i \in DOMAIN D |-> D[i][2]]>>)
-  IN /\ fails' = AddFails(Tag("C07", { x \in f7 \cup fw : ~is9(x) }, ev, "") \cup Tag("C09", { x \in f7 : is9(x) }, ev, det))
-     /\ pos' = [pos EXCEPT !.moved = TRUE]
+      f8 == IF pos.moved /\ ~cfg.loopEn /\ ev.trunc = 0 /\ ev.steps = <<>> THEN PlayAfterSeekFails(ev, song, cfg, pos.t) ELSE {}
+  IN /\ fails' = AddFails(Tag("C07", { x \in f7 \cup fw : ~is9(x) }, ev, "") \cup Tag("C09", { x \in f7 : is9(x) }, ev, det)
+                          \cup Tag("C08", f8, ev, ToString(<<"from", pos.t>>)))
+     /\ pos' = [pos EXCEPT !.moved = TRUE, !.t = IF ev.calls = <<>> THEN @ ELSE ev.calls[Len(ev.calls)][2]]
      /\ UNCHANGED <<song, cfg, exec>>
      /\ cnt' = [cnt EXCEPT !.steps = @ + 1, !.plays = @ + 1, !.events = @ + Len(D),
                            !.sameTickGroups = @ + Cardinality({ i \in 2..Len(D) : D[i][2] = D[i - 1][2] /\ D[i][5] = D[i - 1][5] }),
@@ -204,6 +271,7 @@ Next ==
           [] ev.e = "Load" -> StepLoad(ev)
           [] ev.e \in {"SetLoop", "SetLoopCount", "SetTempo", "SetHooks", "TrackOpt", "ChanEn"} -> StepCfg(ev)
           [] ev.e = "PlayTicks" -> StepPlayTicks(ev)
+          [] ev.e = "Seek" -> StepSeek(ev)
           [] ev.e = "End" -> UNCHANGED <<song, cfg, pos, exec, fails, cnt>>
           [] OTHER -> StepOther(ev)
   \/ /\ l = Len(T) + 1 /\ l' = l + 1
